@@ -727,6 +727,14 @@ def judge_phase(ctx, case, R, M, extern=None, tag=""):
                       Mg if Mg is None or "err" in Mg else {"ok": "text emitted"},
                       what=f"{lang}: free parameters with an initial-assignment parameter must be refused{tag}")
             continue
+        unknown = [k for k in case["free"] if k not in {p for p, _ in case["content"]["pars"]}]
+        if unknown:
+            # a requested free parameter that is no parameter of the model: `parameters.pop(key)` raises KeyError
+            # (C07_free_parameter_unknown)
+            ctx.judge(sc, ent.get("gen", {"ok": "text emitted"}), {"err": ["KeyError", unknown[0]]},
+                      Mg if Mg is None or "err" in Mg else {"ok": "text emitted"},
+                      what=f"{lang}: a free parameter that is no parameter of the model{tag}")
+            continue
         if "gen" in ent:
             ctx.judge(sc, ent["gen"], {"ok": "text emitted"}, Mg if Mg is None or "err" in Mg else {"ok": "text emitted"},
                       what=f"{lang}: generation raised")
@@ -946,6 +954,10 @@ CORPUS = [
     {"content": {"vars": [["x", {"v": "1"}], ["y", {"v": "1"}]], "pars": [["k", {"v": "2"}]], "derived": [],
                  "rxns": [["r", {"args": ["x", "k"], "e": ["*", ["a", 0], ["a", 1]], "st": [["x", {"c": "-1"}], ["y", {"c": "1"}]]}]]},
      "free": ["k"], "states": [["0", ["3", "1"], ["3"]]], "stratum": "corpus"},
+    # a requested free parameter that is no parameter of the model: KeyError (C07_free_parameter_unknown)
+    {"content": {"vars": [["x", {"v": "1"}], ["y", {"v": "1"}]], "pars": [["k", {"v": "2"}]], "derived": [],
+                 "rxns": [["r", {"args": ["x", "k"], "e": ["*", ["a", 0], ["a", 1]], "st": [["x", {"c": "-1"}], ["y", {"c": "1"}]]}]]},
+     "free": ["k", "nope"], "states": [["0", ["3", "1"], ["3", "4"]]], "stratum": "corpus"},
     # no reaction changes any variable (F-C07-3 as it is now): `return ()` / `[()]`
     {"content": {"vars": [["x", {"v": "1"}], ["z", {"v": "1"}]], "pars": [["k", {"v": "2"}]],
                  "derived": [["d", {"args": ["x", "k"], "e": ["*", ["a", 0], ["a", 1]]}]], "rxns": []},
